@@ -17,11 +17,11 @@ def run_design(v, w):
     v.add_mc(r)
     if r["violated"]:
         raise Infra("Replicas.tla: Agree fails in the specified mode (specification bug):\n" + r["out"][-2000:])
-    for dev in ("maporder", "wallclock"):
+    for dev in ("maporder", "wallclock", "sharedscratch"):
         r2 = vlib.tlc(d, "Replicas", "Replicas_dev_%s.cfg" % dev, workers=4, timeout=1800)
         if not r2["violated"]:
             raise Infra("Replicas.tla cannot see the %s divergence: the design model is vacuous" % dev)
-    log("design run Replicas: Agree holds for the specified commit (%d distinct states, %d transitions); both named deviations are refuted"
+    log("design run Replicas: Agree holds for the specified commit (%d distinct states, %d transitions); the three named deviations (map order, wall clock, scratch memory shared with concurrent readers) are refuted"
         % (r["distinct"], r["generated"]))
 
 
